@@ -19,6 +19,7 @@ type knownCase struct {
 	Given   map[string][]string `json:"given"`
 	Refs    map[string][]string `json:"refs"`
 	Par     map[string]string   `json:"par"`
+	Form    string              `json:"form"`
 	Want    string              `json:"want"`
 	Lacking []string            `json:"lacking"`
 }
@@ -40,7 +41,17 @@ func knownText(c knownCase, s string) string {
 	}
 	sb.WriteString("\n")
 	for _, r := range c.Refs[s] {
-		sb.WriteString(`  "` + short + "_to_" + strings.TrimPrefix(r, "@") + `": ` + r + ", // {optional: true}\n")
+		key := `  "` + short + "_to_" + strings.TrimPrefix(r, "@") + `": `
+		switch c.Form {
+		case "item":
+			sb.WriteString(key + "[ // {optional: true}\n    " + r + "\n  ],\n") // (the annotation of an array stands after its opening bracket)
+		case "orlist":
+			sb.WriteString(key + `1, // {or: ["` + r + `", "integer"], optional: true}` + "\n")
+		case "ruleset":
+			sb.WriteString(key + `1, // {or: [{type: "` + r + `"}, {type: "integer"}], optional: true}` + "\n")
+		default:
+			sb.WriteString(key + r + ", // {optional: true}\n")
+		}
 	}
 	// every text has a rule set of its own: an unnamed type that has to reach the root together with the type it stands in
 	sb.WriteString(`  "set_` + short + `": 1, // {or: [{type: "integer"}, {type: "string", minLength: 1}]}` + "\n")
